@@ -26,7 +26,10 @@ SHARED = ['nsum', 'nsum_alt', 'nsum_geom', 'nsum_fin', 'nsum_levin', 'nsum_geom_
           'zetazero', 'stieltjes', 'quad', 'quadgl', 'hyp2f1', 'hyp1f1', 'besselj', 'zeta', 'zeta_int', 'bernoulli', 'gamma', 'const_pi',
           'const_euler', 'exp', 'ln', 'sin', 'atan', 'erf', 'ellipk', 'lambertw', 'polylog', 'grampoint', 'siegeltheta', 'nzeros',
           'riemannr', 'primezeta', 'secondzeta', 'backlunds', 'psi', 'factorial', 'loggamma', 'fib', 'det', 'inverse', 'lu_solve', 'expm']
-EXCLUDE = frozenset(['primepi2', 'rand', 'randmatrix'])      # primepi2: an iv-context result by specification (see DESIGN)
+EXCLUDE = frozenset(['rand', 'randmatrix'])
+# primepi2 returns an interval of the iv context by specification (its result depends on iv.prec: see DESIGN): it is
+# executed - it is the one mixin routine that reaches into another context - but its result is not compared
+NOJUDGE = frozenset(['primepi2'])
 
 _SOLO = {}
 
@@ -94,8 +97,9 @@ class Machine(object):
         }
         return {'coverage': cov, 'assumptions': [
             'clone() copies the parent precision at the moment of the call: specified dependency, modelled, not a leak',
-            'primepi2 returns an interval of the iv context by specification: excluded',
-            'passing one context\'s numbers as arguments to another context is not judged']}
+            'primepi2 returns an interval of the iv context by specification: it is executed (settings of every context are checked after it) but its value is not compared',
+            'one context\'s numbers as arguments of another context\'s functions are judged (the function must compute with them as with its own); '
+            'binary operators are not: there the left operand\'s context rules by design']}
 
 
 def _allowed_types(enc, actor, bad):
@@ -194,6 +198,8 @@ def _check(ex, step, rec, where):
         r['value'] = rec.get('exc')
     else:
         return
+    if step.get('nojudge'):
+        return                      # settings of every context were checked above; the value is not compared
     ex.records.append(r)
 
 def _strip_owner(step):
@@ -437,6 +443,8 @@ class _Gen(object):
             st['exact'] = bool(e.exact)
             st['fam'] = e.fam
             st['typed'] = e.ret in ('num', 'seq', 'matrix')
+            if e.key in NOJUDGE:
+                st['nojudge'] = True
             if actor in ('c1', 'c2'):
                 st['clone_vs_mp'] = True
             # a number made by another mp-type context as an operand of a function of this one: the function
